@@ -6,11 +6,12 @@ package main
 // caller data is snapshotted before and after; the cached DOM is snapshotted before and after.
 
 import (
-	"io/fs"
 	"bytes"
 	"context"
 	"fmt"
+	"io/fs"
 	"reflect"
+	"strings"
 	"testing/fstest"
 	"time"
 
@@ -64,6 +65,13 @@ var c10Files = map[string]string{
 	"shorthand.vuego":          `<template include="panel.vuego" :t="a"></template><ui-badge :label="b"></ui-badge><i v-for="x in items"><template include="panel.vuego" :t="x"></template></i>`,
 	"panel.vuego":              `<div class="panel"><ui-badge :label="t"></ui-badge><span>{{ t }}</span><ui-badge label="fixed"></ui-badge></div>`,
 	"components/UiBadge.vuego": `<b class="badge">{{ label }}</b>`,
+	// a program that DEFINES variables in every kind of scope (top level, loop body, included component, bound and plain <template> attributes) and a
+	// program that only READS those names, in every kind of scope: nothing the first one defined is visible in the second, whatever ran before
+	"leaksrc.vuego": `<template canary="CANARY-7f3a" other="x"></template><ul><li v-for="p in items"><template canary="CANARY-7f3a" pp="{{ p }}"></template>{{ p }}{{ canary }}</li></ul>` +
+		`<template include="leakcomp.vuego" :canary3="'CANARY-7f3a'"></template><div v-for="(i, p) in items"><template :canary2="'CANARY-7f3a'"></template><b>{{ canary2 }}</b></div>`,
+	"leakcomp.vuego":     `<template canary="CANARY-7f3a"></template><i v-for="w in items"><template canary4="CANARY-7f3a"></template>c</i>`,
+	"leaksink.vuego":     `<b>[{{ canary }}|{{ canary2 }}|{{ canary3 }}|{{ canary4 }}|{{ pp }}]</b><ol><li v-for="q in items">[{{ canary }}|{{ canary2 }}|{{ canary4 }}|{{ p }}|{{ pp }}]</li></ol><template include="leaksinkcomp.vuego"></template>`,
+	"leaksinkcomp.vuego": `<u>[{{ canary }}|{{ canary3 }}]</u><s v-for="z in items">[{{ canary }}|{{ canary4 }}|{{ w }}]</s>`,
 }
 
 // c10Engine: the engine every C09/C10 stream uses — shorthand component tags registered from components/
@@ -97,7 +105,7 @@ func c10Data(variant int) func() map[string]any {
 
 func c10Progs() []c10Prog {
 	var out []c10Prog
-	for _, f := range []string{"attrs", "style", "loop", "chain", "inc", "once", "filters", "fm", "layouted", "slotpage", "fmset", "nest", "fail", "failinc", "failmid", "failtext", "failreq", "tpl", "vhtml", "map", "tplhtml", "shorthand"} {
+	for _, f := range []string{"attrs", "style", "loop", "chain", "inc", "once", "filters", "fm", "layouted", "slotpage", "fmset", "nest", "fail", "failinc", "failmid", "failtext", "failreq", "tpl", "vhtml", "map", "tplhtml", "shorthand", "leaksrc", "leaksink"} {
 		for v := 0; v < 4; v++ {
 			out = append(out, c10Prog{fmt.Sprintf("%s/%d", f, v), f + ".vuego", c10Data(v)})
 		}
@@ -158,7 +166,10 @@ func runC10(r *Run, replay *Case) {
 		wout, we := fresh(p, viaVue)
 		c := &Case{Name: kind + " " + p.name, Input: map[string]any{"kind": kind, "history": hist, "prog": p.name, "vue": viaVue}, Impl: map[string]any{"out": out, "err": e},
 			Key: fmt.Sprintf("%s|%v|%s|%v", kind, hist, p.name, viaVue), Tags: []string{"kind:" + kind, "prog:" + p.page}, Oracle: &Verdict{OK: true}}
-		if out != wout || e != we {
+		if p.page == "leaksink.vuego" && strings.Contains(out+wout, "CANARY") {
+			// (process-wide pools are shared with the fresh engine too: the value must not be there at all)
+			c.Oracle = &Verdict{OK: false, Class: "value-of-another-render-visible:" + p.page, Detail: fmt.Sprintf("after %v: %q (fresh engine: %q) shows a value only another program defines", hist, out, wout)}
+		} else if out != wout || e != we {
 			c.Oracle = &Verdict{OK: false, Class: "differs-from-fresh:" + p.page, Detail: fmt.Sprintf("after %v: %q/%v, fresh engine %q/%v", hist, out, e, wout, we)}
 		} else if !reflect.DeepEqual(data, snap) {
 			entry := "template"
